@@ -230,6 +230,27 @@ Theorem merged_wmsc_not_conditional :
     serve_wms h tps max_age tiled (WBool true) body inm ims = Resp (new_resp body).
 Proof. exact serve_wms_merged. Qed.
 
+(* A cache WITHOUT storage (disable_storage) built on a storing cache with the same grid (tiled_only access; e.g. a
+   watermark drawn on the fly): its tile services behave, event by event, exactly like those of the lower cache -
+   whatever the Tile object of the upper request held before the source was attached ... *)
+Theorem storage_less_cache_answers_like_lower_cache :
+  forall h tps max_age t0 st ev,
+    step_passthrough h tps max_age t0 st ev = step h tps max_age st ev.
+Proof. exact passthrough_is_lower_step. Qed.
+
+(* ... in particular a request for a tile stored in the lower cache is answered with the validators of THAT tile as
+   stored now (ETag, Last-Modified, never no-store; 200 + bytes or 304 + no body) and writes nothing; together with
+   validators_stable / sound_304 / stale_validators_get_200 (statements about `step`) all clauses carry over. *)
+Theorem storage_less_cache_uses_lower_validators :
+  forall h tps max_age t0 st svc k inm ims up e st' r,
+    lookup st k = Some e ->
+    step_passthrough h tps max_age t0 st (Req svc k inm ims up) = (st', Some (Resp r)) ->
+    st' = st /\
+    (r_etag r = Some (etag_of_entry h e) /\ r_lastmod r = lastmod_of_entry tps e /\ r_nostore r = false /\
+     ((r_status r = 200 /\ r_body r = Some (e_body e)) \/
+      (r_status r = 304 /\ r_body r = None /\ r_ctype r = false))).
+Proof. exact passthrough_answer. Qed.
+
 (* Tie to the source.  gen_not_modified is regenerated on every run from the body of Response.make_conditional
    (translator/specs/cond.py -> gen/Gen_cond.v, statement by statement, fail closed; the method must end with the
    304 block whose condition the kernel is).  The model's make_conditional IS this kernel applied to the ETag
